@@ -45,7 +45,9 @@ class C14(scen.PairProp):
                   "translation-equivariant (moving every time by c moves the start by c and leaves the interval), so "
                   "positions in blows are origin-independent. correspondence: pairs of sessions (punctual band vs the "
                   "same band with one strike D late, D from 1 ms to 40 s, at any row/place; same session with the "
-                  "clock origin moved by up to 1.8e9 s); oracle: later strikes are exactly k polls later with "
+                  "clock origin moved by up to 1.8e9 s; a band that restarts with Look To D and D+extra seconds "
+                  "into a hold-up - the handler's 20 ms sleep runs on its own thread while the main thread leaves the "
+                  "hold-up); oracle: later strikes are exactly k polls later with "
                   "D <= k*10ms < D + 11 ms and unchanged intervals; offsets from Look To agree to 2e-6 s. "
                   "non-trivial = Wheatley was held up")
 
@@ -58,7 +60,33 @@ class C14(scen.PairProp):
             rows = rng.randint(4, 9)
             gap = 1.0
             r_mode = rng.random()
-            if r_mode < 0.25:
+            if r_mode < 0.15:
+                # the band restarts while Wheatley is held up: a human stops ringing at (r0, p0), and
+                # Look To is called again D seconds into the hold-up (run B: D + extra).  Everything after
+                # the hold-up - the second Look To included - is `extra` later in B, so the second touch
+                # must have the same offsets from its own Look To in both runs.
+                origin = 1000.0
+                t0 = origin + 0.3 + rng.random()
+                rows = rng.randint(3, 6)
+                I = scen.interval(ps, N)
+                r0 = rng.randint(1, rows - 1)
+                hb = rng.choice(humans)
+                band = [e for e in human_strikes(N, humans, I, gap, t0, rows)
+                        if e[0] < t0 + 3 + I * scen.blow_index(N, gap, r0, hb - 1) - 0.5 * I]
+                t_h = t0 + 3 + I * scen.blow_index(N, gap, r0, hb - 1)
+                D = rng.choice([0.5, 2.0, 7.0]) * rng.uniform(0.9, 1.1)
+                extra = rng.choice([100, 137, 450]) * 0.01
+
+                def mk2(T2):
+                    sc, _ = base_scenario(rng, N, humans, ps, origin, t0, rows)
+                    sc["events"] = sc["events"] + [list(e) for e in band] + [
+                        [T2 - 0.2, "msg", {"m": "global_state", "state": [True] * N}], call(T2, LOOK_TO)]
+                    sc["end"] = T2 + 3 + I * (3 * N + 2)
+                    sc["_restart"] = {"T2": T2, "humans": humans}      # (the band rings on in the new touch)
+                    return sc
+                yield {"k": "pair", "scenarios": [mk2(t_h + D), mk2(t_h + D + extra)], "mode": "restart", "D": D,
+                       "extra": extra, "T2": [t_h + D, t_h + D + extra], "t0": t0, "I": I, "N": N, "at": [r0, hb - 1]}
+            elif r_mode < 0.35:
                 # server mode: a hold-up, then the peal speed is changed; later strikes must still be
                 # exactly the hold-up later than in the session without it
                 origin = 1000.0
@@ -149,6 +177,12 @@ class C14(scen.PairProp):
                 scB["events"] += [[e[0] + shift, e[1], e[2]] for e in evs]
                 yield {"k": "pair", "scenarios": [scA, scB], "mode": "origin", "shift": shift, "t0": t0, "I": I, "N": N}
 
+    def agents(self, req):
+        rs = req["scenario"].get("_restart")
+        if rs is None:
+            return None
+        return lambda s: [scen.Follower(s, rs["humans"], lambda r, p: 0.05, start=rs["T2"])]
+
     def nontrivial(self, req, reply):
         return len(scen.rings(reply["runs"][0])) > 4
 
@@ -165,6 +199,28 @@ class C14(scen.PairProp):
                 if ba != bb or abs((tb - req["shift"]) - ta) > 5e-5:
                     return (f"clock origin moved by {req['shift']}: bell {ba} at offset {ta - req['t0']:.6f} became bell "
                             f"{bb} at {tb - req['shift'] - req['t0']:.6f}")
+            return None
+        if req["mode"] == "restart":
+            Ta, Tb = req["T2"]
+            A1, B1 = [x for x in A if x[0] < Ta - 0.2], [x for x in B if x[0] < Tb - 0.2]
+            if [(round(t, 9), b) for t, b, _ in A1] != [(round(t, 9), b) for t, b, _ in B1]:
+                return "restart during a hold-up: the strikes before the hold-up differ between the runs"
+            A2, B2 = [x for x in A if x[0] >= Ta - 0.2], [x for x in B if x[0] >= Tb - 0.2]
+            if len(A2) < 2 or len(B2) < 2:
+                return (f"restart during a hold-up: Wheatley rang {len(A2)} / {len(B2)} strikes in the "
+                        f"{3 * req['N']} blows after the second Look To")
+            m = min(len(A2), len(B2))          # (the runs end at a fixed offset: the last strike may be cut off)
+            if abs(len(A2) - len(B2)) > 1:
+                return f"restart during a hold-up: {len(A2)} strikes in the second touch of one run, {len(B2)} in the other"
+            A2, B2 = A2[:m], B2[:m]
+            if [b for _, b, _ in A2] != [b for _, b, _ in B2]:
+                return (f"restart {req['D']:.2f} s / {req['D'] + req['extra']:.2f} s into a hold-up: the second touch "
+                        f"rings {[b for _, b, _ in A2][:8]} in one run and {[b for _, b, _ in B2][:8]} in the other")
+            for (ta, ba, _), (tb, bb, _) in zip(A2, B2):
+                if abs((ta - Ta) - (tb - Tb)) > 0.0101 + 1e-6:
+                    return (f"Look To called {req['D']:.2f} s into a hold-up: bell {ba} strikes {ta - Ta:.4f} s after it; "
+                            f"called {req['extra']:.2f} s later into the same hold-up: {tb - Tb:.4f} s after it "
+                            f"(the interrupted hold-up leaks into the new touch)")
             return None
         D = req["D"]
         r0, p0 = req["at"]
